@@ -90,7 +90,7 @@ impl NodeFacts {
                 f.counts.push((0, 1));
             } else {
                 let (lo, hi) = (n.lo().value(), n.hi().value());
-                let v = n.var().value();
+                let v = logical(n.var().value());
                 if with_tt {
                     let x = TT::var(nvars, v);
                     let t = x
@@ -184,7 +184,7 @@ pub fn audit_private(bdd: &Bdd, facts: &NodeFacts, rng: &mut Rng, counts: &mut A
         }
         for (i, set) in vd.iter().enumerate() {
             counts.var_deps += 1;
-            let mut got: Vec<usize> = set.iter().map(|v| v.value()).collect();
+            let mut got: Vec<usize> = set.iter().map(|v| logical(v.value())).collect();
             got.sort_unstable();
             let want = facts.support_vec(Term(i));
             if got != want && facts.nvars <= 64 {
@@ -222,7 +222,7 @@ pub fn audit_private(bdd: &Bdd, facts: &NodeFacts, rng: &mut Rng, counts: &mut A
     }
     // memo tables
     let sample = |rng: &mut Rng| -> Vec<bool> { (0..facts.nvars.max(1)).map(|_| rng.bool()).collect() };
-    let eval = |t: Term, a: &[bool]| walk(nodes, t, &|i| a.get(i).copied().unwrap_or(false));
+    let eval = |t: Term, a: &[bool]| walk(nodes, t, &|i| a.get(logical(i)).copied().unwrap_or(false));
     for ((i, t, e), r) in &snap.ite_cache {
         counts.ite += 1;
         for x in [i, t, e, r] {
@@ -252,8 +252,8 @@ pub fn audit_private(bdd: &Bdd, facts: &NodeFacts, rng: &mut Rng, counts: &mut A
             return Err("restrict memo entry mentions a handle beyond the table".into());
         }
         if facts.tt[0].is_some() {
-            if var.value() < facts.nvars {
-                let want = facts.tt_of(*t).cofactor(var.value(), *val);
+            if logical(var.value()) < facts.nvars {
+                let want = facts.tt_of(*t).cofactor(logical(var.value()), *val);
                 if want != *facts.tt_of(*r) {
                     return Err(format!("restrict memo ({},{},{}) -> {} is not the cofactor", t, var, val, r));
                 }
@@ -264,8 +264,8 @@ pub fn audit_private(bdd: &Bdd, facts: &NodeFacts, rng: &mut Rng, counts: &mut A
             for _ in 0..24 {
                 let mut a = sample(rng);
                 let got = eval(*r, &a)?;
-                if var.value() < a.len() {
-                    a[var.value()] = *val;
+                if logical(var.value()) < a.len() {
+                    a[logical(var.value())] = *val;
                 }
                 if eval(*t, &a)? != got {
                     return Err(format!("restrict memo ({},{},{}) -> {} differs under a sampled assignment", t, var, val, r));
@@ -410,7 +410,7 @@ impl Store {
         match op {
             Op::Var(v) => {
                 desc = format!("variable({})", v);
-                result = self.bdd.variable(Var(*v));
+                result = self.bdd.variable(Var(actual(*v)));
                 expected = TT::var(self.nvars, *v);
             }
             Op::Const(b) => {
@@ -450,7 +450,7 @@ impl Store {
             }
             Op::Restrict(a, v, val) => {
                 desc = format!("restrict({},Var({}),{})", h(*a), v, val);
-                result = self.bdd.restrict(h(*a), Var(*v), *val);
+                result = self.bdd.restrict(h(*a), Var(actual(*v)), *val);
                 expected = if *v < self.nvars {
                     self.issued[*a].1.cofactor(*v, *val)
                 } else {
@@ -459,7 +459,7 @@ impl Store {
             }
             Op::Node(v, lo, hi) => {
                 desc = format!("node(Var({}),{},{})", v, h(*lo), h(*hi));
-                result = self.bdd.node(Var(*v), h(*lo), h(*hi));
+                result = self.bdd.node(Var(actual(*v)), h(*lo), h(*hi));
                 let x = TT::var(self.nvars, *v);
                 expected = x.and(&self.issued[*hi].1).or(&x.not().and(&self.issued[*lo].1));
             }
@@ -629,6 +629,8 @@ fn replica_store(rng: &mut Rng, nvars: usize, rep: &mut Report) -> Result<Store,
 pub struct StoreRun {
     pub store: Store,
     pub facts: Option<NodeFacts>,
+    /// keeps the sparse variable numbering of this history installed while the run is being queried
+    pub varmap_guard: Option<VarMapGuard>,
 }
 
 /// one store history: random operations, audits at quiescent points
@@ -643,7 +645,22 @@ pub fn store_history(
     let nops = if nvars <= 4 { rng.range(10, 60) } else { rng.range(20, 120) };
     let replay = |ops: &[String]| json!({"property": cfg.prop, "case_seed": case_seed.to_string(), "nvars": nvars, "ops_tail": fmt_ops(ops)});
     rep.evaluations += 1;
-    let mut store = match guarded(SMALL_BUDGET, || start_store(&mut rng, nvars, rep)) {
+    // a third of the histories number their variables sparsely (gaps, not starting at 0): only fresh stores
+    let sparse = rng.chance(1, 3);
+    let _varmap_guard = if sparse {
+        let mut map = Vec::with_capacity(nvars);
+        let mut cur = rng.below(5);
+        for _ in 0..nvars {
+            map.push(cur);
+            cur += *rng.pick(&[1usize, 1, 2, 5, 17, 40]);
+        }
+        rep.count("stores_with_sparse_variable_numbers", 1);
+        rep.max("max_variable_number", *map.last().unwrap_or(&0) as u64);
+        Some(set_varmap(Some(map)))
+    } else {
+        None
+    };
+    let mut store = match guarded(SMALL_BUDGET, || if sparse { rep.count("stores_fresh", 1); Ok(Store::new(nvars)) } else { start_store(&mut rng, nvars, rep) }) {
         Ok(Ok(s)) => s,
         Ok(Err(e)) => {
             rep.violation("store-start", e, replay(&[]));
@@ -731,7 +748,7 @@ pub fn store_history(
     if rep.samples.len() < 3 {
         rep.sample(json!({"nvars": nvars, "ops": fmt_ops(&store.ops), "nodes": store.bdd.nodes.len()}));
     }
-    Some(StoreRun { store, facts })
+    Some(StoreRun { store, facts, varmap_guard: _varmap_guard })
 }
 
 pub fn c06(cfg: &Cfg, rep: &mut Report) {
@@ -921,7 +938,7 @@ fn c13_queries(cfg: &Cfg, rep: &mut Report, case_seed: u64, run: StoreRun) {
         match guarded(SMALL_BUDGET, || bdd.var_dependencies(*t)) {
             Ok(set) => {
                 rep.count("dependency_sets_checked", 1);
-                let mut got: Vec<usize> = set.iter().map(|v| v.value()).collect();
+                let mut got: Vec<usize> = set.iter().map(|v| logical(v.value())).collect();
                 got.sort_unstable();
                 let want = tt.support();
                 if got != want {
@@ -939,7 +956,11 @@ fn c13_queries(cfg: &Cfg, rep: &mut Report, case_seed: u64, run: StoreRun) {
             return;
         }
     }
-    // impact measures on a random term list of length <= nvars (the list plays the role of an interpretation)
+    // impact measures on a random term list of length <= nvars (the list plays the role of an interpretation;
+    // positions are variable numbers, so this only makes sense with dense numbering)
+    if varmap_active() {
+        return;
+    }
     let len = rng.range(1, nvars);
     let list: Vec<Term> = (0..len).map(|_| *rng.pick(&handles)).collect();
     for v in 0..len {
@@ -985,7 +1006,7 @@ fn c13_cubes(
     for gv in gvs {
         for goal in [false, true] {
             let what = format!("interpretations({}, {}, Var({}), [], [])", t, goal, gv);
-            let cubes = match guarded(SMALL_BUDGET, || bdd.interpretations(t, goal, Var(gv), &[], &[])) {
+            let cubes = match guarded(SMALL_BUDGET, || bdd.interpretations(t, goal, Var(actual(gv)), &[], &[])) {
                 Ok(c) => c,
                 Err(c) => {
                     rep.violation(&format!("interpretations:{}", c.kind()), c.describe(), replay(what));
@@ -1004,6 +1025,9 @@ fn c13_cubes(
             for (neg, pos) in &cubes {
                 let mut mask = 0usize;
                 let mut val = 0usize;
+                let neg: Vec<Var> = neg.iter().map(|v| Var(logical(v.value()))).collect();
+                let pos: Vec<Var> = pos.iter().map(|v| Var(logical(v.value()))).collect();
+                let (neg, pos) = (&neg, &pos);
                 for v in neg {
                     if v.value() >= nvars || (mask >> v.value()) & 1 == 1 {
                         rep.violation("cube-malformed", format!("{}: cube {:?}/{:?} mentions a variable twice or out of range", what, neg, pos), replay(what.clone()));
